@@ -80,6 +80,13 @@ Definition run_c09 (w : wire) : wire :=
            | Some c, _, _, _ => [zn c]
            | _, _, _, _ => [4]
            end)
+      else if op =? 12 then      (* label rule: tokens per line, n, per line: first token float-looking?, its integer part, last column *)
+      run_dec (do nt <- getN; do n <- getN; do ds <- getNs n; do vs <- getNs n; do ws <- getZs n; ret (nt, map (fun d => negb (Nat.eqb d 0)) ds, vs, map inject_Z ws)) (den :: w')
+        (fun '(nt, ds, vs, ws) =>
+           match file_matrix_of_tokens Qops nt ds vs ws with
+           | Some (nb, M) => [0; if file_is_labelled ds then 1 else 0; zn nb] ++ flat_map (fun r => map (fun q => Qnum (Qred q)) r) M
+           | None => [3]
+           end)
       else if op =? 11 then      (* file semantics: labelled flag, ncol, n, labels (n, ignored when unlabelled), last column (n) *)
       run_dec (do lab <- getN; do ncol <- getN; do n <- getN; do ls <- getNs n; do ws <- getZs n; ret (negb (Nat.eqb lab 0), ncol, ls, map inject_Z ws)) (den :: w')
         (fun '(lab, ncol, ls, ws) =>
